@@ -22,7 +22,7 @@ from typing import Any, ForwardRef, Optional, Tuple, Type, Union
 from uuid import UUID
 from zoneinfo import ZoneInfo
 
-from typing_extensions import TypeAlias
+from typing_extensions import LiteralString, TypeAlias
 
 from mashumaro.config import BaseConfig
 from mashumaro.core.const import PY_311_MIN
@@ -38,6 +38,7 @@ from mashumaro.core.meta.helpers import (
     is_generic,
     is_literal,
     is_named_tuple,
+    is_final,
     is_new_type,
     is_not_required,
     is_readonly,
@@ -488,8 +489,10 @@ def on_special_typing_primitive(
         )
     elif is_type_var_tuple(instance.type):
         return get_schema(instance.derive(type=tuple[Any, ...]), ctx)
-    elif is_readonly(instance.type):
+    elif is_readonly(instance.type) or is_final(instance.type):
         return get_schema(instance.derive(type=args[0]), ctx)
+    elif instance.type is LiteralString:
+        return get_schema(instance.derive(type=str), ctx)
     elif is_type_alias_type(instance.type):
         return get_schema(instance.derive(type=instance.type.__value__), ctx)
     elif isinstance(instance.type, ForwardRef):
